@@ -112,24 +112,6 @@ Section Main.
     - rewrite Nat.eqb_refl, bytes_cmp_refl. reflexivity.
   Qed.
 
-  (* keys admitted in maps: eq is Leibniz equality *)
-  Lemma key_eq k' k : key_ok k' = true -> key_ok k = true -> s_cmp k' k = Some 0%Z -> k' = k.
-  Proof.
-    destruct k', k; intros K1 K2 E; try discriminate; cbn [s_cmp] in E; apply some_inj in E.
-    - apply int_cmp_eq in E. subst. reflexivity.
-    - apply bytes_cmp_eq in E. subst. reflexivity.
-  Qed.
-
-  Lemma key_refl k : key_ok k = true -> s_cmp k k = Some 0%Z.
-  Proof.
-    destruct k; intros K; try discriminate; cbn [s_cmp].
-    - rewrite int_cmp_refl. reflexivity.
-    - rewrite bytes_cmp_refl. reflexivity.
-  Qed.
-
-  Lemma key_scalar k : key_ok k = true -> scalar k = true.
-  Proof. destruct k; intros; try discriminate; reflexivity. Qed.
-
   (* ---------------------------------------------------------------- the parallel walk *)
   Lemma walk_zero A B (c : A -> B -> option Z) : forall l1 l2,
     walk A B c l1 l2 = Some 0%Z -> Forall2 (fun x y => c x y = Some 0%Z) l1 l2.
@@ -174,76 +156,174 @@ Section Main.
     rewrite !N.lxor_assoc. f_equal. apply N.lxor_comm.
   Qed.
 
-  (* ---------------------------------------------------------------- association lists with Leibniz keys *)
-  Definition keys (mp : list (value * value)) := map fst mp.
-  Definition keysok (mp : list (value * value)) := Forall (fun kv => key_ok (fst kv) = true) mp.
+  (* ---------------------------------------------------------------- keys of maps *)
+  (* eq on scalar keys is equality up to the sign of a zero (Float) and up to String / Type of a name *)
+  Definition knorm (k : value) : value :=
+    match k with
+    | VFloat b => VFloat (if f_is_zero b then 0%N else b)
+    | VType n => VStr n
+    | _ => k
+    end.
 
-  Lemma keysok_in mp kv : keysok mp -> In kv mp -> key_ok (fst kv) = true.
-  Proof. unfold keysok. rewrite Forall_forall. auto. Qed.
-
-  Lemma m_get_none mp k : keysok mp -> key_ok k = true -> (m_get mp k = None <-> ~ In k (keys mp)).
+  Lemma hash_knorm k : H (knorm k) = H k.
   Proof.
-    intros Hk Kk. induction Hk as [|[k' v'] mp Hk' _ IH]; simpl; [tauto|].
-    simpl in Hk'. destruct (s_cmp k' k) as [d|] eqn:E.
-    - destruct d as [|p|p].
-      + apply key_eq in E; auto. subst. split; [discriminate|]. intros N. exfalso. apply N. auto.
-      + rewrite IH. split; [|tauto]. intros N [->|I]; [|tauto]. rewrite key_refl in E by auto. discriminate.
-      + rewrite IH. split; [|tauto]. intros N [->|I]; [|tauto]. rewrite key_refl in E by auto. discriminate.
-    - rewrite IH. split; [|tauto]. intros N [->|I]; [|tauto]. rewrite key_refl in E by auto. discriminate.
+    destruct k; try reflexivity. cbn [knorm v_hash]. unfold float_hash. simpl.
+    destruct (f_is_zero bits) eqn:Z; [reflexivity|]. rewrite Z. reflexivity.
   Qed.
 
-  Lemma m_get_some mp k v : keysok mp -> key_ok k = true -> m_get mp k = Some v -> In (k, v) mp.
+  Lemma le_word_split : forall n p, le_word (le_split n p) = (p mod 256 ^ N.of_nat n)%N.
   Proof.
-    intros Hk Kk. induction Hk as [|[k' v'] mp Hk' _ IH]; simpl; [discriminate|].
-    simpl in Hk'. destruct (s_cmp k' k) as [d|] eqn:E; [destruct d as [|p|p]|]; auto.
-    intros E'. injection E' as <-. apply key_eq in E; auto. subst. auto.
+    induction n as [|n IH]; intros p.
+    - simpl. rewrite N.mod_1_r. reflexivity.
+    - change (le_split (S n) p) with ((p mod 256)%N :: le_split n (p / 256)%N).
+      cbn [le_word]. rewrite IH. rewrite Nat2N.inj_succ, N.pow_succ_r'.
+      rewrite N.mod_mul_r by (try apply N.pow_nonzero; discriminate). reflexivity.
   Qed.
 
-  Lemma m_get_in mp k v : keysok mp -> key_ok k = true -> NoDup (keys mp) -> In (k, v) mp -> m_get mp k = Some v.
+  Lemma le_split_inj p q : (p < M64)%N -> (q < M64)%N -> le_split 8 p = le_split 8 q -> p = q.
   Proof.
-    intros Hk Kk. induction Hk as [|[k' v'] mp Hk' Hk IH]; simpl; [tauto|].
-    simpl in Hk'. intros ND [E|I].
-    - injection E as -> ->. rewrite key_refl by auto. reflexivity.
-    - inversion ND as [|? ? Nin ND']; subst.
-      destruct (s_cmp k' k) as [d|] eqn:E; [destruct d as [|p|p]|]; auto.
-      apply key_eq in E; auto. subst. exfalso. apply Nin. apply (in_map fst) in I. exact I.
+    intros Hp Hq E. apply (f_equal le_word) in E. rewrite !le_word_split in E.
+    change (256 ^ N.of_nat 8)%N with M64 in E. rewrite !N.mod_small in E by assumption. exact E.
   Qed.
 
-  Lemma keys_distinct_nodup mp : keysok mp -> keys_distinct mp = true -> NoDup (keys mp).
+  Lemma wf_ptr p : (p <? M64)%N = true -> (p < M64)%N.
+  Proof. apply N.ltb_lt. Qed.
+
+  Lemma key_norm k' k : v_wf k' = true -> v_wf k = true -> s_cmp k' k = Some 0%Z -> knorm k' = knorm k.
   Proof.
-    intros Hk. induction Hk as [|[k v] mp Hk' Hk IH]; simpl; [constructor|].
-    simpl in Hk'. destruct (m_get mp k) eqn:E; [discriminate|]. intros D.
-    constructor; auto. apply m_get_none in E; auto.
+    intros W' W E. destruct k', k; cbn [s_cmp] in E; try discriminate; cbn [knorm].
+    - apply some_inj in E. apply int_cmp_eq in E. subst. reflexivity.
+    - apply some_inj in E. apply wf_float in W', W.
+      destruct (float_cmp_zero bits bits0) as [->|[Z1 Z2]]; try tauto. rewrite Z1, Z2. reflexivity.
+    - apply some_inj in E. apply bytes_cmp_eq in E. subst. reflexivity.
+    - apply some_inj in E. apply bytes_cmp_eq in E. subst. reflexivity.
+    - apply some_inj in E. apply bytes_cmp_eq in E. subst. reflexivity.
+    - apply some_inj in E. apply bytes_cmp_eq in E. cbn [v_wf] in W', W.
+      f_equal. apply le_split_inj; auto using wf_ptr.
+    - apply some_inj in E. apply bytes_cmp_eq in E. cbn [v_wf] in W', W.
+      f_equal. apply le_split_inj; auto using wf_ptr.
+    - destruct (length bytes =? length bytes0); [|discriminate].
+      apply some_inj in E. apply bytes_cmp_eq in E. subst. reflexivity.
   Qed.
 
-  Lemma nodup_keys_distinct mp : keysok mp -> NoDup (keys mp) -> keys_distinct mp = true.
+  Lemma f_is_zero_0 : f_is_zero 0 = true.
+  Proof. vm_compute. reflexivity. Qed.
+
+  Lemma key_norm_conv k' k : scalar k' = true -> kclass k' = kclass k -> v_wf k' = true -> v_wf k = true ->
+    knorm k' = knorm k -> s_cmp k' k = Some 0%Z.
   Proof.
-    intros Hk. induction Hk as [|[k v] mp Hk' Hk IH]; simpl; [reflexivity|].
-    simpl in Hk'. intros ND. inversion ND as [|? ? Nin ND']; subst.
-    apply m_get_none in Nin; auto. rewrite Nin. auto.
+    intros S Cl W' W E. destruct k', k; try discriminate; cbn [knorm] in E; cbn [s_cmp].
+    - injection E as ->. rewrite int_cmp_refl. reflexivity.
+    - injection E as E. apply wf_float in W', W. f_equal.
+      destruct (f_is_zero bits) eqn:Z1, (f_is_zero bits0) eqn:Z2.
+      + apply float_cmp_zeros; assumption.
+      + subst bits0. rewrite f_is_zero_0 in Z2. discriminate.
+      + subst bits. rewrite f_is_zero_0 in Z1. discriminate.
+      + subst. apply float_cmp_refl. tauto.
+    - injection E as ->. rewrite bytes_cmp_refl. reflexivity.
+    - injection E as ->. rewrite bytes_cmp_refl. reflexivity.
+    - injection E as ->. rewrite bytes_cmp_refl. reflexivity.
+    - injection E as ->. rewrite bytes_cmp_refl. reflexivity.
+    - injection E as ->. rewrite Nat.eqb_refl, bytes_cmp_refl. reflexivity.
   Qed.
 
-  (* two association lists with the same keys and hash-equal values have the same XOR *)
-  Lemma match_hash : forall mp mp', NoDup (keys mp) -> NoDup (keys mp') -> length mp = length mp' ->
-    (forall k v, In (k, v) mp -> exists v', In (k, v') mp' /\ H v = H v') -> mh mp = mh mp'.
+  Definition nkeys (mp : list (value * value)) := map (fun kv => knorm (fst kv)) mp.
+  Definition kwf (mp : list (value * value)) :=
+    Forall (fun kv => scalar (fst kv) = true /\ v_wf (fst kv) = true) mp.
+  Definition kcl (c : nat * nat) (mp : list (value * value)) := Forall (fun kv => kclass (fst kv) = c) mp.
+
+  Lemma kwf_in mp kv : kwf mp -> In kv mp -> scalar (fst kv) = true /\ v_wf (fst kv) = true.
+  Proof. unfold kwf. rewrite Forall_forall. auto. Qed.
+  Lemma kcl_in c mp kv : kcl c mp -> In kv mp -> kclass (fst kv) = c.
+  Proof. unfold kcl. rewrite Forall_forall. auto. Qed.
+
+  Lemma m_get_some mp k v : kwf mp -> v_wf k = true -> m_get mp k = Some v ->
+    exists k', In (k', v) mp /\ knorm k' = knorm k.
+  Proof.
+    intros Hk Wk. induction Hk as [|[k1 v1] mp [S1 W1] _ IH]; simpl; [discriminate|].
+    simpl in S1, W1. destruct (s_cmp k1 k) as [d|] eqn:E; [destruct d as [|p|p]|];
+      try (intros G; destruct (IH G) as [k' [I N]]; exists k'; auto).
+    intros G. injection G as <-. exists k1. split; [auto|]. apply key_norm; assumption.
+  Qed.
+
+  Lemma m_get_in mp k k' v c : kwf mp -> kcl c mp -> v_wf k = true -> kclass k = c -> NoDup (nkeys mp) ->
+    In (k', v) mp -> knorm k' = knorm k -> m_get mp k = Some v.
+  Proof.
+    intros Hk Hc Wk Ck. revert Hc. induction Hk as [|[k1 v1] mp [S1 W1] Hk IH]; intros Hc ND I N; [destruct I|].
+    simpl in S1, W1. pose proof (Forall_inv Hc) as C1. pose proof (Forall_inv_tail Hc) as Hc'. simpl in C1.
+    simpl in ND. apply NoDup_cons_iff in ND. destruct ND as [Nin ND']. simpl.
+    destruct I as [E|I].
+    - injection E as -> ->.
+      assert (Ek : s_cmp k' k = Some 0%Z) by (apply key_norm_conv; try assumption; congruence).
+      rewrite Ek. reflexivity.
+    - destruct (s_cmp k1 k) as [d|] eqn:E; [destruct d as [|p|p]|]; auto.
+      exfalso. apply key_norm in E; auto. apply Nin. simpl in E. rewrite E, <- N.
+      apply (in_map (fun kv => knorm (fst kv))) in I. exact I.
+  Qed.
+
+  Lemma keys_distinct_nodup mp c : kwf mp -> kcl c mp -> keys_distinct mp = true -> NoDup (nkeys mp).
+  Proof.
+    intros Hk. induction Hk as [|[k v] mp [S1 W1] Hk IH]; intros Hc; simpl; [constructor|].
+    simpl in S1, W1. pose proof (Forall_inv Hc) as C1. pose proof (Forall_inv_tail Hc) as Hc'. simpl in C1.
+    destruct (m_get mp k) eqn:E; [discriminate|]. intros D.
+    constructor; auto. intros I. unfold nkeys in I. apply in_map_iff in I. destruct I as [[k2 v2] [N I]].
+    simpl in N. assert (G : m_get mp k = Some v2) by (apply (m_get_in mp k k2 v2 c); auto).
+    rewrite G in E. discriminate.
+  Qed.
+
+  Lemma nodup_keys_distinct mp : kwf mp -> NoDup (nkeys mp) -> keys_distinct mp = true.
+  Proof.
+    intros Hk. induction Hk as [|[k v] mp [S1 W1] Hk IH]; simpl; [reflexivity|].
+    simpl in S1, W1. intros ND. inversion ND as [|? ? Nin ND']; subst.
+    destruct (m_get mp k) as [v'|] eqn:E; [|auto].
+    exfalso. apply m_get_some in E; auto. destruct E as [k' [I N]]. apply Nin. simpl. rewrite <- N.
+    apply (in_map (fun kv => knorm (fst kv))) in I. exact I.
+  Qed.
+
+  (* two association lists with matching keys and hash-equal values have the same XOR *)
+  Lemma match_hash : forall mp mp', NoDup (nkeys mp) -> NoDup (nkeys mp') -> length mp = length mp' ->
+    (forall k v, In (k, v) mp -> exists k' v', In (k', v') mp' /\ knorm k' = knorm k /\ H v = H v') ->
+    mh mp = mh mp'.
   Proof.
     induction mp as [|[k v] rest IH]; intros mp' ND ND' L M.
     - destruct mp'; [reflexivity|discriminate].
-    - destruct (M k v (or_introl eq_refl)) as [v' [I Hv]].
+    - destruct (M k v (or_introl eq_refl)) as [k' [v' [I [Nk Hv]]]].
       destruct (in_split _ _ I) as [l1 [l2 ->]].
-      inversion ND as [|? ? Nin NDr]; subst.
-      unfold keys in ND'. rewrite map_app in ND'. simpl in ND'.
-      pose proof (NoDup_remove_1 _ _ _ ND') as ND''. pose proof (NoDup_remove_2 _ _ _ ND') as Nk.
-      rewrite <- map_app in ND'', Nk.
+      simpl in ND. inversion ND as [|? ? Nin NDr]; subst.
+      unfold nkeys in ND'. rewrite map_app in ND'. simpl in ND'.
+      pose proof (NoDup_remove_1 _ _ _ ND') as ND''. pose proof (NoDup_remove_2 _ _ _ ND') as Nk'.
+      rewrite <- map_app in ND'', Nk'.
       assert (E : mh rest = mh (l1 ++ l2)).
       { apply IH; auto.
         - rewrite app_length in *. simpl in L. lia.
-        - intros k2 v2 I2. destruct (M k2 v2 (or_intror I2)) as [v2' [I2' Hv2]].
-          exists v2'. split; [|exact Hv2].
+        - intros k2 v2 I2. destruct (M k2 v2 (or_intror I2)) as [k2' [v2' [I2' [N2 Hv2]]]].
+          exists k2', v2'. split; [|auto].
           apply in_app_or in I2'. apply in_or_app. destruct I2' as [|[E|]]; auto.
-          injection E as -> ->. exfalso. apply Nin. apply (in_map fst) in I2. exact I2. }
-      rewrite mh_cons, E, !mh_app, mh_cons. unfold eh. simpl. rewrite Hv.
+          injection E as -> ->. exfalso. apply Nin. rewrite <- Nk, N2.
+          apply (in_map (fun kv => knorm (fst kv))) in I2. exact I2. }
+      rewrite mh_cons, E, !mh_app, mh_cons. unfold eh. simpl.
+      rewrite Hv, <- (hash_knorm k), <- Nk, hash_knorm.
       rewrite !N.lxor_assoc. reflexivity.
+  Qed.
+
+  Lemma class_eqb_eq c d : class_eqb c d = true <-> c = d.
+  Proof.
+    destruct c as [c1 c2], d as [d1 d2]. unfold class_eqb. simpl. rewrite andb_true_iff, !Nat.eqb_eq.
+    split; [intros [-> ->]; reflexivity|intros E; injection E; auto].
+  Qed.
+
+  Lemma same_class_kcl mp : same_class mp = true -> exists c, kcl c mp.
+  Proof.
+    destruct mp as [|[k0 v0] mp]; [exists (0, 0); constructor|].
+    unfold same_class. intros E. exists (kclass k0). apply Forall_forall. intros kv I.
+    rewrite forallb_forall in E. apply E in I. apply class_eqb_eq in I. auto.
+  Qed.
+
+  Lemma kcl_same_class c mp : kcl c mp -> same_class mp = true.
+  Proof.
+    intros Hc. destruct mp as [|[k0 v0] mp]; [reflexivity|]. unfold same_class.
+    apply forallb_forall. intros kv I. apply class_eqb_eq.
+    rewrite (kcl_in _ _ _ Hc I). apply (kcl_in _ _ (k0, v0) Hc). left. reflexivity.
   Qed.
 
   (* ---------------------------------------------------------------- well-formedness, unpacked *)
@@ -251,16 +331,20 @@ Section Main.
   Proof. cbn [v_wf]. intros E. apply Forall_forall. rewrite forallb_forall in E. exact E. Qed.
 
   Lemma wf_map k mp : v_wf (VMap k mp) = true ->
-    keysok mp /\ Forall (fun kv => v_wf (fst kv) = true /\ v_wf (snd kv) = true) mp /\ NoDup (keys mp).
+    kwf mp /\ (exists c, kcl c mp) /\
+    Forall (fun kv => v_wf (fst kv) = true /\ v_wf (snd kv) = true) mp /\ NoDup (nkeys mp).
   Proof.
-    cbn [v_wf]. intros E. apply andb_true_iff in E. destruct E as [E1 E2].
+    cbn [v_wf]. intros E. apply andb_true_iff in E. destruct E as [E E3].
+    apply andb_true_iff in E. destruct E as [E1 E2].
     rewrite forallb_forall in E1.
-    assert (K : keysok mp).
-    { apply Forall_forall. intros kv I. apply E1 in I. apply andb_true_iff in I. destruct I as [I _].
-      apply andb_true_iff in I. tauto. }
-    split; [exact K|]. split; [|apply keys_distinct_nodup; auto].
-    apply Forall_forall. intros kv I. apply E1 in I. apply andb_true_iff in I. destruct I as [I I2].
-    apply andb_true_iff in I. tauto.
+    assert (A : forall kv, In kv mp -> scalar (fst kv) = true /\ v_wf (fst kv) = true /\ v_wf (snd kv) = true).
+    { intros kv I. apply E1 in I. apply andb_true_iff in I. destruct I as [I I2].
+      apply andb_true_iff in I. unfold key_ok in I. tauto. }
+    assert (K : kwf mp) by (apply Forall_forall; intros kv I; destruct (A kv I) as [? [? ?]]; auto).
+    destruct (same_class_kcl _ E2) as [c Hc].
+    split; [exact K|]. split; [exists c; exact Hc|]. split.
+    - apply Forall_forall. intros kv I. destruct (A kv I) as [? [? ?]]; auto.
+    - apply (keys_distinct_nodup mp c); auto.
   Qed.
 
   Lemma all_in_spec (c : value -> value -> option Z) m2 : forall m1, all_in c m2 m1 = true ->
@@ -294,7 +378,7 @@ Section Main.
     - (* maps *)
       destruct b as [| | | | | | | |k' mp']; try discriminate.
       rewrite !hash_map.
-      destruct (wf_map _ _ Wa) as [Ka [Wma NDa]]. destruct (wf_map _ _ Wb) as [Kb [Wmb NDb]].
+      destruct (wf_map _ _ Wa) as [Ka [_ [Wma NDa]]]. destruct (wf_map _ _ Wb) as [Kb [_ [Wmb NDb]]].
       assert (Walk : walk _ _ (pair_c (fun x y => C x y)) mp mp' = Some 0%Z -> mh mp = mh mp').
       { intros Ew. apply walk_zero in Ew. clear E NDa NDb Ka Kb Wa Wb.
         revert IH Wma Wmb. induction Ew as [|x y l l' Exy _ IHE]; intros IH Wma Wmb; [reflexivity|].
@@ -305,10 +389,10 @@ Section Main.
       assert (Look : length mp = length mp' -> all_in (fun x y => C x y) mp' mp = true -> mh mp = mh mp').
       { intros L A. apply match_hash; auto. intros kk v I.
         destruct (all_in_spec _ _ _ A kk v I) as [v' [G Ec]].
-        assert (Kk : key_ok kk = true) by apply (keysok_in _ _ Ka I).
-        apply m_get_some in G; auto. exists v'. split; [exact G|].
+        destruct (kwf_in _ _ Ka I) as [_ Wkk]. simpl in Wkk.
+        apply m_get_some in G; auto. destruct G as [k2 [I' Nk]]. exists k2, v'. split; [exact I'|]. split; [exact Nk|].
         rewrite Forall_forall in IH, Wma, Wmb.
-        apply (proj2 (IH _ I)); [apply (Wma _ I) | apply (Wmb _ G) | exact Ec]. }
+        apply (proj2 (IH _ I)); [apply (Wma _ I) | apply (Wmb _ I') | exact Ec]. }
       destruct k.
       + change (C (VMap KTable mp) (VMap k' mp')) with
           (if tl && (length mp =? length mp') && all_in (fun x y => C x y) mp' mp then Some 0%Z
@@ -321,11 +405,10 @@ Section Main.
 
   (* ---------------------------------------------------------------- reflexivity *)
   Lemma map_self_zero k k' mp :
-    keysok mp -> NoDup (keys mp) ->
     Forall (fun kv => C (fst kv) (fst kv) = Some 0%Z /\ C (snd kv) (snd kv) = Some 0%Z) mp ->
     C (VMap k mp) (VMap k' mp) = Some 0%Z.
   Proof.
-    intros K ND R.
+    intros R.
     assert (W : walk _ _ (pair_c (fun x y => C x y)) mp mp = Some 0%Z).
     { apply walk_refl. eapply Forall_impl; [|exact R]. intros kv [R1 R2]. unfold pair_c. rewrite R1. simpl. exact R2. }
     destruct k; [|exact W].
@@ -341,7 +424,7 @@ Section Main.
       try (rewrite v_cmp_scalar by reflexivity; apply s_cmp_refl; [reflexivity|assumption]).
     - change (C (VSeq k l) (VSeq k l)) with (walk value value (fun x y => C x y) l l).
       apply walk_refl. apply wf_seq in Wa. rewrite Forall_forall in *. auto.
-    - destruct (wf_map _ _ Wa) as [Ka [Wm ND]]. apply map_self_zero; auto.
+    - destruct (wf_map _ _ Wa) as [Ka [_ [Wm ND]]]. apply map_self_zero.
       rewrite Forall_forall in *. intros kv I. destruct (IH _ I), (Wm _ I). auto.
   Qed.
 
@@ -416,7 +499,7 @@ Section Main.
       apply assign_seq in E. subst. split; [reflexivity|left; exact R].
     - (* maps *)
       apply v_copy_id in E. subst. split; [reflexivity|left].
-      destruct (wf_map _ _ W) as [Ka [Wm ND]]. apply map_self_zero; auto.
+      destruct (wf_map _ _ W) as [Ka [_ [Wm ND]]]. apply map_self_zero.
       rewrite Forall_forall in *. intros kv I. destruct (Wm _ I). auto using v_cmp_refl.
   Qed.
 
@@ -427,13 +510,16 @@ Section Main.
   Theorem map_perm_eq k k' mp mp' : tl = true -> v_wf (VMap KTable mp) = true -> Permutation mp mp' ->
     v_wf (VMap k' mp') = true /\ C (VMap KTable mp) (VMap k' mp') = Some 0%Z /\ H (VMap k mp) = H (VMap k' mp').
   Proof.
-    intros Htl W P. destruct (wf_map _ _ W) as [Ka [Wm ND]].
-    assert (Kb : keysok mp') by (unfold keysok; rewrite <- P; exact Ka).
-    assert (NDb : NoDup (keys mp')) by (unfold keys; rewrite <- P; exact ND).
+    intros Htl W P. destruct (wf_map _ _ W) as [Ka [[c Hc] [Wm ND]]].
+    assert (Kb : kwf mp') by (unfold kwf; rewrite <- P; exact Ka).
+    assert (Hcb : kcl c mp') by (unfold kcl; rewrite <- P; exact Hc).
+    assert (NDb : NoDup (nkeys mp')) by (unfold nkeys; rewrite <- P; exact ND).
     assert (Wb : v_wf (VMap k' mp') = true).
     { cbn [v_wf]. apply andb_true_iff. split; [|apply nodup_keys_distinct; auto].
+      apply andb_true_iff. split; [|apply (kcl_same_class c); exact Hcb].
       apply forallb_forall. intros kv I. apply (Permutation_in _ (Permutation_sym P)) in I.
-      rewrite Forall_forall in Wm. destruct (Wm _ I) as [W1 W2]. rewrite (keysok_in _ _ Ka I), W1, W2. reflexivity. }
+      rewrite Forall_forall in Wm. destruct (Wm _ I) as [W1 W2]. destruct (kwf_in _ _ Ka I) as [S1 _].
+      unfold key_ok. rewrite S1, W1, W2. reflexivity. }
     assert (Cz : C (VMap KTable mp) (VMap k' mp') = Some 0%Z).
     { change (C (VMap KTable mp) (VMap k' mp')) with
         (if tl && (length mp =? length mp') && all_in (fun x y => C x y) mp' mp then Some 0%Z
@@ -443,7 +529,10 @@ Section Main.
         [apply andb_true_iff; split; [exact Htl|rewrite (Permutation_length P); apply Nat.eqb_refl]|].
       apply all_in_intro. intros kk v I. exists v.
       rewrite Forall_forall in Wm. split.
-      - apply m_get_in; auto. apply (keysok_in _ _ Ka I). apply (Permutation_in _ P I).
+      - apply (m_get_in mp' kk kk v c); auto.
+        + apply (Wm _ I).
+        + apply (kcl_in _ _ _ Hc I).
+        + apply (Permutation_in _ P I).
       - apply v_cmp_refl. apply (Wm _ I). }
     split; [exact Wb|]. split; [exact Cz|].
     rewrite !hash_map. rewrite <- (hash_map KTable mp), <- (hash_map k' mp').
@@ -502,3 +591,10 @@ Proof. reflexivity. Qed.
 Lemma ex_float_nonvacuous :
   (0 < M64)%N /\ f_is_nan 0 = false /\ f_is_nan 9223372036854775808 = false /\ float_cmp 0 9223372036854775808 = 0%Z.
 Proof. vm_compute. auto. Qed.
+
+(* maps keyed by Float: -0.0 and +0.0 are the same key *)
+Definition ex_fa : value := VMap KTable [(VFloat 9223372036854775808, VInt 1); (VFloat 4607182418800017408, VInt 2)]%N.
+Definition ex_fb : value := VMap KTable [(VFloat 4607182418800017408, VInt 2); (VFloat 0, VInt 1)]%N.
+Lemma ex_float_keys_nonvacuous :
+  ex_fa <> ex_fb /\ v_wf ex_fa = true /\ v_wf ex_fb = true /\ v_cmp true ex_fa ex_fb = Some 0%Z.
+Proof. split; [discriminate|]. vm_compute. auto. Qed.
